@@ -59,7 +59,7 @@ Fixpoint mk_prog_k (kn : knobs) (is : list instr) (succs : list (list (option na
 
 Definition run_model (kn : knobs) (rf : regfile) (f : func) : observed :=
   let o := empty_obs in
-  match verify (instructions (fnodes f)) with
+  match verify_nodes true (fnodes f) with
   | OK _ =>
     let nsj := prune_jumps (fnodes f) in
     let ns1 := prune_labels nsj in
